@@ -25,6 +25,7 @@ pub enum ExecutionError {
     ColumnNotFound(String),
     GroupKeyNotAvailable(Option<String>),
     ExpectedNumericValue,
+    NumericOverflow,
     ExpectedBoolValue,
     ExpectedStringValue,
     NotSupportedOperation,
@@ -59,6 +60,7 @@ impl std::fmt::Display for ExecutionError {
                 }
             }
             ExecutionError::ExpectedNumericValue => { write!(f, "Expected a numeric value") }
+            ExecutionError::NumericOverflow => { write!(f, "Numeric overflow") }
             ExecutionError::ExpectedBoolValue => { write!(f, "Expected a bool value") }
             ExecutionError::ExpectedStringValue => { write!(f, "Expected a string value") }
             ExecutionError::NotSupportedOperation => { write!(f, "Not a supported operation") }
